@@ -19,7 +19,7 @@ RULE = ("programs = parser_method! invocations (strip_prefix, strip_suffix, find
         "Parser::new and with_start_offset(.., 100) after a skip; oracle = reference in the same program using the same "
         "literal tokens in expression position: strip = first listed alternative that is a prefix/suffix, find = earliest "
         "start (latest end) of any alternative, ties to the first listed, trim = repeatedly remove the first listed matching "
-        "alternative until none or an empty one matches, no match => default branch and parser unchanged; compared: branch, "
+        "alternative until none or an empty one matches, no match => default branch and parser unchanged; the invocation is written directly or inside a caller's macro_rules! with every literal forwarded as a `literal` / `expr` / `tt` fragment (alone or as pieces of concat!); compared: branch, "
         "remainder, start_offset, end_offset; non-trivial = >= 2 alternatives where one is a prefix/suffix/substring of another, "
         "or a literal using >= 2 distinct encoding devices, counted per distinct program")
 
@@ -301,25 +301,77 @@ def gen_program(rng):
             groups.append(cur)
     else:
         groups = [alts]
+    # macro forwarding: the invocation sits inside a caller's macro_rules! and every literal arrives as a forwarded
+    # fragment (`$l:literal` / `$l:expr` / `$l:tt`), alone or as pieces of a concat!(..)
+    forward = rng.choice([None, None, None, "literal", "expr", "tt"])
+    if forward:
+        for a in alts:
+            t = a["text"]
+            cut = rng.randint(0, len(t)) if (len(t) >= 2 and rng.random() < 0.5) else None
+            a["pieces"] = [t] if cut is None else [t[:cut], t[cut:]]
     # how each branch body is written: `=> expr,` / `=> { expr }` (no comma) / `=> { expr },`; same for the default
     bodyforms = [rng.randint(0, 2) for _ in range(len(groups) + 1)]
     related = any(a != b and (a["text"] in b["text"]) for a in alts for b in alts if a is not b)
     multi_dev = any(len(d) >= 2 for d in devices_all)
-    return {"form": form, "groups": groups, "bodyforms": bodyforms, "related": related, "multi_device": multi_dev,
+    return {"form": form, "groups": groups, "forward": forward, "bodyforms": bodyforms, "related": related, "multi_device": multi_dev,
             "devices": sorted({d for ds in devices_all for d in ds})}
 
 
 FORM_NAMES = ["strip_prefix", "strip_suffix", "find_skip", "rfind_skip", "trim_start_matches", "trim_end_matches"]
 
 
+def plain_lit(text):
+    out = []
+    for c in text:
+        if c in SIMPLE:
+            out.append(SIMPLE[c])
+        elif ord(c) < 0x20 or ord(c) == 0x7f or ord(c) == 0xa0:
+            out.append("\\u{%x}" % ord(c))
+        else:
+            out.append(c)
+    return "\"" + "".join(out) + "\""
+
+
 def render_one(i, prog):
     form = prog["form"]
     name = FORM_NAMES[form]
+    fwd = prog.get("forward")
     alts_src = []
+    lits = []  # forwarded literal tokens, in order of use
+
+    def tok(a):
+        """the pattern token of alternative `a` as written in the parser_method! invocation"""
+        if not fwd or "pieces" not in a:
+            return a["tok"]
+        names = []
+        for piece in a["pieces"]:
+            names.append("$l%d" % len(lits))
+            lits.append(plain_lit(piece))
+        return names[0] if len(names) == 1 else "concat!(%s)" % ", ".join(names)
+
     for bi, g in enumerate(prog["groups"]):
         for a in g:
-            alts_src.append("(%s, %d)" % (a["tok"], bi if form < 4 else 0))
+            ref = plain_lit(a["text"]) if (fwd and "pieces" in a) else a["tok"]
+            alts_src.append("(%s, %d)" % (ref, bi if form < 4 else 0))
     alts_decl = "const ALTS_%d: &[(&str, u32)] = &[%s];" % (i, ", ".join(alts_src))
+    if fwd:
+        if form < 4:
+            bf = prog.get("bodyforms") or [0] * (len(prog["groups"]) + 1)
+
+            def body(v, f):
+                return ["%d," % v, "{ %d }" % v, "{ %d }," % v][f]
+            branches = "".join("%s => %s\n            " % (" | ".join(tok(a) for a in g), body(bi, bf[bi])) for bi, g in enumerate(prog["groups"]))
+            inv = "parser_method!{$p, %s;\n            %s_ => %s\n        }" % (name, branches, ["99", "{ 99 }", "99,"][bf[-1]])
+        else:
+            inv = "parser_method!{$p, %s; %s}" % (name, " | ".join(tok(a) for a in prog["groups"][0]))
+        params = "".join(", $l%d:%s" % (j, fwd) for j in range(len(lits)))
+        mac = "macro_rules! fw_%d { ($p:ident%s) => { %s }; }" % (i, params, inv)
+        args = "".join(", " + l for l in lits)
+        if form < 4:
+            k = "%s\nfn k_%d<'a>(mut p: Parser<'a>) -> (u32, Parser<'a>) {\n    let r = fw_%d!(p%s);\n    (r, p)\n}" % (mac, i, i, args)
+        else:
+            k = "%s\nfn k_%d<'a>(mut p: Parser<'a>) -> (u32, Parser<'a>) {\n    fw_%d!(p%s);\n    (0, p)\n}" % (mac, i, i, args)
+        return alts_decl, k
     if form < 4:
         bf = prog.get("bodyforms") or [0] * (len(prog["groups"]) + 1)
 
